@@ -42,7 +42,7 @@ CHECKS = {
     "C09": dict(level="other", technique="polynomial normal forms of every tensor kernel and product overload compared with index-notation definitions (oracle/tensor_algebra.py) on 3x3/3-vector embeddings; inverse guard shape",
                 text="Decides the formula clause for all inputs (polynomial identity => exact on integer-valued inputs) and the absent-iff-singular clause; the few-ulp clause on non-integer inputs is decided by an a-priori forward error bound for the kernels without cancellation (258 of 342 instances: <= 3 u) and not decided for dot/cross/determinant/products.",
                 note="trusted: clang front end, evaluator, sympy; oracle written from index notation", ref="3/C09"),
-    "C18": dict(level="other", technique="definitional functions located by parameter types; algebraic normal form compared with a table of textbook formulas (oracle/formulas.py, 68 entries)",
+    "C18": dict(level="other", technique="definitional functions located by parameter types; algebraic normal form compared with a table of textbook formulas (oracle/formulas.py, 104 entries); forward relative-error domain for the few-ulp clause; narrowing scan",
                 text="Decides which real function each definitional relation computes, constants included, for all positive inputs and the three numeric types (104 formulas); the few-ulp clause is decided by an a-priori forward error bound for the 98 formulas without subtraction of rounded intermediates (<= 5 u) and not decided for the remaining 6.",
                 note="trusted: clang front end, evaluator, sympy, the formula table", ref="3/C18, Appendix B"),
     "C10": dict(level="other", technique="typestate / who-may-write analysis of the stored vector of Direction and PlanarDirection (every constructor, mutator and producer evaluated and classified), syntactic write scan over all bodies, algebraic rules for Magnitude / accessors / scalar x direction constructors",
